@@ -132,6 +132,7 @@ Section FetchProofs.
           -- destruct (fo_read f) as [s|e] eqn:Hrd.
              ++ simpl. intros H; inversion H.
              ++ simpl. destruct c; simpl; try (destruct (e_is_exception e) eqn:He; simpl);
+                  try (destruct (e_name e =? "StopIteration") eqn:Hn; simpl);
                   intros H; inversion H; subst;
                   right; right; right; exists d, f, e; repeat split; auto; try discriminate.
           -- simpl. destruct c; simpl; intros H; inversion H; subst;
